@@ -25,6 +25,9 @@ type DecoSpec struct {
 	// ByCtor): the Custom glyphs are changed, the Blank fields are emptied, and Populate fills them in again
 	Base  string   `json:"base,omitempty"`
 	Blank []string `json:"blank,omitempty"`
+	// Raw: only the Custom fields are set and Populate is NOT called (an application may register such a thing; it is
+	// not a complete decoration, so only checks that make no claim about the drawing use it: C19)
+	Raw bool `json:"raw,omitempty"`
 }
 
 var BuiltinDecos = []string{
@@ -96,6 +99,9 @@ func (d DecoSpec) Make() (deco decoration.Decoration, boxless bool) {
 			if f.IsValid() && f.CanSet() {
 				f.SetString(d.Custom[k])
 			}
+		}
+		if d.Raw {
+			return deco, boxless
 		}
 		if d.Literal && !d.FromNoBox {
 			for i, name := range DecoFields {
